@@ -195,7 +195,7 @@ def gen_scripts(rng, tier):
         ngen = rng.choice([1, 2, 2, 3])
         g = _G(rng, ngen)
         tables = [g.table() for _ in range(ngen)]
-        cases.append({"tables": tables, "script": g.script()})
+        cases.append({"tables": tables, "script": g.script(), "foreign": rng.random() < 0.35})
     return cases
 
 
@@ -309,22 +309,28 @@ def impl_scripts(case):
             gen = env.gens[g]
             if not env.done:
                 env.events.append(["call", who, g, inp, cur()])
+            # Some driver resumptions are issued from inside a *copy* of the driver's context (as an
+            # event loop's call_soon or another thread would): same current action, different Context
+            # object.  A wrapper that keeps the generator's own context is indifferent to this.
+            env.nres = getattr(env, "nres", 0) + 1
+            foreign = bool(case.get("foreign")) and decorated and who is None and env.nres % 2 == 0
+            via = (lambda f, *a: contextvars.copy_context().run(f, *a)) if foreign else (lambda f, *a: f(*a))
             try:
                 if inp[0] == "next":
-                    out = ["ret", next(gen)]
+                    out = ["ret", via(next, gen)]
                 elif inp[0] == "send":
-                    out = ["ret", gen.send(inp[1])]
+                    out = ["ret", via(gen.send, inp[1])]
                 elif inp[0] == "throw":
                     e = UserExc(inp[1])
                     env.thrown[inp[1]] = e
-                    out = ["ret", gen.throw(e)]
+                    out = ["ret", via(gen.throw, e)]
                 elif inp[0] == "throw_ge":
                     env.nge += 1
                     e = GeneratorExit("mine", env.nge)
                     env.thrown[("ge", env.nge)] = e
-                    out = ["ret", gen.throw(e)]
+                    out = ["ret", via(gen.throw, e)]
                 else:
-                    out = ["ret", gen.close()]
+                    out = ["ret", via(gen.close)]
             except StopIteration as e:
                 out = ["stop", e.value]
             except BaseException as e:
